@@ -161,6 +161,8 @@ AliasClasses ==
 (* the logical content of level i, split in the part that a base class may take (P = parameter p,
    M = the main components) and the rest (R) *)
 PComp(i) == Cmp("p", <<"Real">>, <<"parameter">>, <<>>, <<>>, <<Lit(i)>>)
+(* pv.clash: the derived class declares p again (as Integer): the own element replaces the inherited one *)
+PClash(i) == IF pv.clash THEN <<Cmp("p", <<"Integer">>, <<"parameter">>, <<>>, <<>>, <<Lit(100 + i)>>)>> ELSE <<>>
 MainComps(s, i) ==
     IF i = 1 THEN <<Cmp("x", <<XType>>, Pre(pv.xpre), XDims, DeclMods, DeclVal)>>
     ELSE <<Cmp(IN1(i), <<CN(pv.depth, i - 1)>>, <<>>, <<>>, CompArgs(s, i), <<>>)>>
@@ -186,30 +188,34 @@ LevelClasses(s, i, innerMain, innerBase) ==
                    MainEqs(i) \o RestEqs(i), RestIeqs(i))>>
          [] md = "one" ->
               <<Cl("model", n \o "B", <<>>, innerMain, <<PComp(i)>> \o MainComps(s, i), MainEqs(i), <<>>),
-                Cl("model", n, <<Ext(BaseRef(i, n \o "B"), xa)>>, <<>>, RestComps(i), RestEqs(i), RestIeqs(i))>>
+                Cl("model", n, <<Ext(BaseRef(i, n \o "B"), xa)>>, <<>>, RestComps(i) \o PClash(i), RestEqs(i), RestIeqs(i))>>
          [] md = "late" ->
               <<Cl("model", n \o "B", <<>>, innerBase, <<PComp(i)>>, <<>>, <<>>),
-                Cl("model", n, <<Ext(BaseRef(i, n \o "B"), <<>>)>>, innerMain, MainComps(s, i) \o RestComps(i),
+                Cl("model", n, <<Ext(BaseRef(i, n \o "B"), <<>>)>>, innerMain, MainComps(s, i) \o RestComps(i) \o PClash(i),
                    MainEqs(i) \o RestEqs(i), RestIeqs(i))>>
          [] md = "chain" ->
               <<Cl("model", n \o "B0", <<>>, <<>>, <<PComp(i)>>, <<>>, <<>>),
                 Cl("model", n \o "B", <<Ext(<<n \o "B0">>, <<>>)>>, innerMain, MainComps(s, i), MainEqs(i), <<>>),
-                Cl("model", n, <<Ext(BaseRef(i, n \o "B"), xa)>>, <<>>, RestComps(i), RestEqs(i), RestIeqs(i))>>
+                Cl("model", n, <<Ext(BaseRef(i, n \o "B"), xa)>>, <<>>, RestComps(i) \o PClash(i), RestEqs(i), RestIeqs(i))>>
          [] md = "multi" ->
               <<Cl("model", n \o "BA", <<>>, <<>>, <<PComp(i)>>, <<>>, <<>>),
                 Cl("model", n \o "BB", <<>>, innerMain, MainComps(s, i), MainEqs(i), <<>>),
                 Cl("model", n, <<Ext(BaseRef(i, n \o "BA"), <<>>), Ext(BaseRef(i, n \o "BB"), xa)>>, <<>>,
-                   RestComps(i), RestEqs(i), RestIeqs(i))>>
+                   RestComps(i) \o PClash(i), RestEqs(i), RestIeqs(i))>>
 
 RECURSIVE LevelsFrom(_, _)
 LevelsFrom(s, i) == IF i > pv.depth THEN <<>> ELSE LevelClasses(s, i, <<>>, <<>>) \o LevelsFrom(s, i + 1)
 
 (* all classes in definition order; the level-1 classes go where pv.nest says *)
+(* pv.shadow: a decoy class with the name of the (nested) level-1 class also exists at library level;
+   lexical lookup must find the nested one *)
+Decoy == IF pv.shadow THEN <<Cl("model", CN(pv.depth, 1), <<>>, <<>>, <<Cmp("decoy", <<"Real">>, <<>>, <<>>, <<>>, <<>>)>>, <<>>, <<>>)>>
+         ELSE <<>>
 AllClasses(s) ==
     LET l1 == LevelClasses(s, 1, <<>>, <<>>) IN
     IF pv.depth = 1 \/ pv.nest = "lib" THEN AliasClasses \o l1 \o LevelsFrom(s, 2)
-    ELSE IF pv.nest = "user" THEN AliasClasses \o LevelClasses(s, 2, l1, <<>>) \o LevelsFrom(s, 3)
-    ELSE AliasClasses \o LevelClasses(s, 2, <<>>, l1) \o LevelsFrom(s, 3)
+    ELSE IF pv.nest = "user" THEN AliasClasses \o Decoy \o LevelClasses(s, 2, l1, <<>>) \o LevelsFrom(s, 3)
+    ELSE AliasClasses \o Decoy \o LevelClasses(s, 2, <<>>, l1) \o LevelsFrom(s, 3)
 
 Lib(s) ==
     LET all  == AllClasses(s)
@@ -243,6 +249,8 @@ WellFormed ==
     /\ (pv.wrap = 3 => pv.split[pv.depth] \in {"one", "chain"} /\ (pv.nest = "lib" \/ pv.depth > 2))
     /\ (pv.wrap = 2 => pv.nest = "lib" \/ pv.depth > 2)
     /\ pv.xtype \in {"Real", "Integer", "Boolean", "aR", "aI", "aB", "aaR"}
+    /\ (pv.shadow => pv.nest # "lib")
+    /\ (pv.clash => \E i \in 1..pv.depth : pv.split[i] # "none")
     /\ \A j \in DOMAIN pv.mods : SiteOK(pv.mods[j])
     /\ \A j, k \in DOMAIN pv.mods : j < k => Rank(pv.mods[j]) > Rank(pv.mods[k])     \* outermost first, no duplicates
     /\ (pv.mods # <<>> => pv.attr \in {"value", "start", "min", "max", "nominal", "fixed", "unit"})
@@ -603,9 +611,9 @@ PreChoices == IF Wide THEN {"", "parameter", "constant", "discrete", "flow", "in
 SplitSeqs(d) == {s \in [1..d -> Modes] : Cardinality({i \in 1..d : s[i] # "none"}) <= (IF Wide THEN 2 ELSE 1)}
 PlainSplits(d) == {s \in SplitSeqs(d) : \A i \in 1..d : s[i] \in {"none", "one"}}
 
-PV(d, f, sm, w, n, s, xt, xd, xp, yp, iq, at, ms) ==
+PV(d, f, sm, w, n, s, xt, xd, xp, yp, iq, at, ms, cl, sh) ==
     [depth |-> d, fan |-> f, same |-> sm, wrap |-> w, nest |-> n, split |-> s, xtype |-> xt, xdims |-> xd,
-     xpre |-> xp, ypre |-> yp, ieq |-> iq, attr |-> at, mods |-> ms]
+     xpre |-> xp, ypre |-> yp, ieq |-> iq, attr |-> at, mods |-> ms, clash |-> cl, shadow |-> sh]
 
 (* C07: hierarchy shapes with a plain leaf, plus leaf shapes (type alias / dimensions / prefixes) on plain hierarchies *)
 LeafShapes == ({"Real", "Integer", "Boolean", "aR", "aI", "aB", "aaR"} \X (0..2) \X {""} \X {""} \X {FALSE})
@@ -614,10 +622,13 @@ LeafShapes == ({"Real", "Integer", "Boolean", "aR", "aI", "aB", "aaR"} \X (0..2)
 HierFamily ==
     IF Family # "hier" THEN {} ELSE
     UNION {
-        {PV(d, f, sm, w, n, s, "Real", 0, "", "", FALSE, "", <<>>) :
+        {PV(d, f, sm, w, n, s, "Real", 0, "", "", FALSE, "", <<>>, FALSE, FALSE) :
             f \in (IF d = 1 THEN {1} ELSE 1..2), sm \in (IF d = 1 THEN {FALSE} ELSE BOOLEAN),
             w \in 0..3, n \in {"lib", "user", "userbase"}, s \in SplitSeqs(d)}
-        \cup {PV(d, 1, FALSE, w, "lib", s, l[1], l[2], l[3], l[4], l[5], "", <<>>) :
+        \* the two dedicated shapes: own element replaces the inherited one / nested class shadows a library class
+        \cup {PV(d, 1, FALSE, w, n, s, "Real", 0, "", "", FALSE, "", <<>>, c[1], c[2]) :
+            w \in {0, 1}, n \in {"lib", "user", "userbase"}, s \in SplitSeqs(d), c \in {<<TRUE, FALSE>>, <<FALSE, TRUE>>, <<TRUE, TRUE>>}}
+        \cup {PV(d, 1, FALSE, w, "lib", s, l[1], l[2], l[3], l[4], l[5], "", <<>>, FALSE, FALSE) :
             w \in (IF Wide THEN {0, 1} ELSE {0}),
             s \in (IF Wide \/ d < 3 THEN PlainSplits(d) ELSE {[i \in 1..d |-> "none"]}), l \in LeafShapes}
         : d \in 1..MaxDepth}
@@ -637,7 +648,7 @@ ModSeqs(S, kinds) ==      \* subsets of at most 3 sites with an expression kind 
 ModsFamily ==
     IF Family # "mods" THEN {} ELSE
     {v \in UNION { UNION {
-            {PV(d, 1, sm, 0, "lib", s, xt, 0, xp, "", FALSE, at, ms) :
+            {PV(d, 1, sm, 0, "lib", s, xt, 0, xp, "", FALSE, at, ms, FALSE, FALSE) :
                 sm \in (IF d >= 3 THEN BOOLEAN ELSE {FALSE}), xp \in {"", "parameter"},
                 at \in {"value", "start", "min", "max", "nominal", "fixed", "unit"},
                 ms \in ModSeqs(Sites(d, s, xt # "Real"), {"lit", "ref"})}
@@ -668,7 +679,7 @@ Tags ==
     \cup {"split" \o ToString(i) \o "-" \o pv.split[i] : i \in {j \in 1..pv.depth : pv.split[j] # "none"}}
     \cup (IF pv.same THEN {"same"} ELSE {})
     \cup (IF pv.xpre # "" THEN {"xpre-" \o pv.xpre} ELSE {}) \cup (IF pv.ypre # "" THEN {"ypre-" \o pv.ypre} ELSE {})
-    \cup (IF pv.ieq THEN {"ieq"} ELSE {})
+    \cup (IF pv.ieq THEN {"ieq"} ELSE {}) \cup (IF pv.clash THEN {"clash"} ELSE {}) \cup (IF pv.shadow THEN {"shadow"} ELSE {})
     \cup (IF pv.attr # "" THEN {"attr-" \o pv.attr} ELSE {})
     \cup {"site-" \o pv.mods[j].k \o ToString(pv.mods[j].i) \o "-" \o pv.mods[j].e : j \in DOMAIN pv.mods}
 
@@ -696,7 +707,7 @@ RECURSIVE SumSeq(_)
 SumSeq(q) == IF q = <<>> THEN 0 ELSE Head(q) + SumSeq(Tail(q))
 Hash(v) == v.depth * 7 + v.fan * 3 + v.wrap * 5 + v.xdims * 11 + StrIdx(v.xtype) * 13 + StrIdx(v.xpre) * 17
            + StrIdx(v.ypre) * 19 + (IF v.same THEN 23 ELSE 0) + (IF v.ieq THEN 29 ELSE 0) + StrIdx(v.nest) * 31
-           + StrIdx(v.attr) * 37
+           + StrIdx(v.attr) * 37 + (IF v.clash THEN 41 ELSE 0) + (IF v.shadow THEN 43 ELSE 0)
            + SumSeq([i \in DOMAIN v.split |-> StrIdx(v.split[i]) * (i + 40)])
            + SumSeq([j \in DOMAIN v.mods |-> (Rank(v.mods[j]) * 2 + StrIdx(v.mods[j].e)) * (j + 52)])
 
